@@ -15,15 +15,11 @@ Proof. destruct e; cbn; [apply form2_ok|apply revise_elem2_ok|apply succ2_S_ok|a
 Lemma rrow2_of_ok e : row_ok2 (rrow2_of e).
 Proof. destruct e; cbn; [apply rform2_ok|apply revise_elem2_ok|apply rsucc2_S_ok|apply rsucc2_N_ok|apply rfail2_ok]. Qed.
 
-(* per-row functions *)
-Definition evrow1 (h : N) (b : block) (c : c1) : c1 :=
-  match ev1_of (id1 c) b with Some e => fstok (row1_of h e c) c | None => c end.
-Definition evrow2 (i : idx) (b : block) (c : c2) : c2 :=
-  match ev2_of (id2 c) b with Some e => fstok (row2_of i e c) c | None => c end.
-Definition revrow1 (b : block) (c : c1) : c1 :=
-  match ev1_of (id1 c) b with Some e => fstok (rrow1_of e c) c | None => c end.
-Definition revrow2 (b : block) (c : c2) : c2 :=
-  match ev2_of (id2 c) b with Some e => fstok (rrow2_of e c) c | None => c end.
+(* per-row functions: a row goes through the changes the block carries for it, in order *)
+Definition evrow1 (h : N) (b : block) (c : c1) : c1 := applyl1 h (evl1_of (id1 c) b) c.
+Definition evrow2 (i : idx) (b : block) (c : c2) : c2 := applyl2 i (evl2_of (id2 c) b) c.
+Definition revrow1 (b : block) (c : c1) : c1 := revertl1 (evl1_of (id1 c) b) c.
+Definition revrow2 (b : block) (c : c2) : c2 := revertl2 (evl2_of (id2 c) b) c.
 Definition rejrow1 (rj : option N) (c : c1) : c1 :=
   match rj with Some hm => if q_rej1 hm c then fstok (rej1 c) c else c | None => c end.
 Definition rejrow2 (rj : option N) (c : c2) : c2 :=
@@ -33,75 +29,91 @@ Definition blkrow1 (buffer : N) (b : block) (c : c1) : c1 :=
 Definition blkrow2 (buffer : N) (b : block) (c : c2) : c2 :=
   rejrow2 (rej_arg buffer (bheight b)) (evrow2 (bidx b) b c).
 
-Lemma updl1_evrow h b c : updl1 fst (fun p => row1_of h (snd p)) (evs1 b) c = evrow1 h b c.
-Proof. unfold updl1, evrow1, ev1_of. destruct (find _ (evs1 b)); reflexivity. Qed.
-Lemma updl2_evrow i b c : updl2 fst (fun p => row2_of i (snd p)) (evs2 b) c = evrow2 i b c.
-Proof. unfold updl2, evrow2, ev2_of. destruct (find _ (evs2 b)); reflexivity. Qed.
-Lemma updl1_revrow b c : updl1 fst (fun p => rrow1_of (snd p)) (evs1 b) c = revrow1 b c.
-Proof. unfold updl1, revrow1, ev1_of. destruct (find _ (evs1 b)); reflexivity. Qed.
-Lemma updl2_revrow b c : updl2 fst (fun p => rrow2_of (snd p)) (evs2 b) c = revrow2 b c.
-Proof. unfold updl2, revrow2, ev2_of. destruct (find _ (evs2 b)); reflexivity. Qed.
+Lemma fold_left_map {X Y Z} (f : Z -> Y -> Z) (g : X -> Y) l : forall z,
+  fold_left f (map g l) z = fold_left (fun z x => f z (g x)) l z.
+Proof. induction l as [|x t IH]; intros z; cbn; auto. Qed.
 
-Lemma find_nodup_in {A} (l : list (N * A)) p :
-  NoDup (map fst l) -> In p l -> find (fun a => fst a =? fst p) l = Some p.
+Lemma seql1_evs {E} (g : E -> c1 -> rs (c1 * list mop)) (l : list (N * E)) c :
+  seql1 (fun p => g (snd p)) l c = fold_left (fun c e => fstok (g e c) c) (map snd l) c.
+Proof. unfold seql1. rewrite fold_left_map. reflexivity. Qed.
+Lemma seql2_evs {E} (g : E -> c2 -> rs (c2 * list mop)) (l : list (N * E)) c :
+  seql2 (fun p => g (snd p)) l c = fold_left (fun c e => fstok (g e c) c) (map snd l) c.
+Proof. unfold seql2. rewrite fold_left_map. reflexivity. Qed.
+
+Lemma seq_rows1 h (l : list (N * pev1)) : forall c,
+  seq_ok1 (fun p => row1_of h (snd p)) l c <-> rows_ok1 h (map snd l) c.
+Proof. induction l as [|p t IH]; intros c; cbn; [tauto|]. split; intros (r & Hr & Ht); exists r; split; auto; apply IH; auto. Qed.
+Lemma seq_rrows1 (l : list (N * pev1)) : forall c,
+  seq_ok1 (fun p => rrow1_of (snd p)) l c <-> rrows_ok1 (map snd l) c.
+Proof. induction l as [|p t IH]; intros c; cbn; [tauto|]. split; intros (r & Hr & Ht); exists r; split; auto; apply IH; auto. Qed.
+Lemma seq_rows2 i (l : list (N * pev2)) : forall c,
+  seq_ok2 (fun p => row2_of i (snd p)) l c <-> rows_ok2 i (map snd l) c.
+Proof. induction l as [|p t IH]; intros c; cbn; [tauto|]. split; intros (r & Hr & Ht); exists r; split; auto; apply IH; auto. Qed.
+Lemma seq_rrows2 (l : list (N * pev2)) : forall c,
+  seq_ok2 (fun p => rrow2_of (snd p)) l c <-> rrows_ok2 (map snd l) c.
+Proof. induction l as [|p t IH]; intros c; cbn; [tauto|]. split; intros (r & Hr & Ht); exists r; split; auto; apply IH; auto. Qed.
+
+(* a change of the block concerns a contract the block mentions *)
+Lemma in_evs_evl {E} (l : list (N * E)) p : In p l -> map snd (filter (fun q => fst q =? fst p) l) <> [].
 Proof.
-  induction l as [|a t IH]; cbn; [tauto|]. intros Hnd [->|Hin].
-  - rewrite N.eqb_refl. reflexivity.
-  - inversion Hnd as [|? ? Ha Ht]; subst.
-    destruct (fst a =? fst p) eqn:E; [|auto].
-    exfalso; apply Ha. assert (fst a = fst p) as -> by lia. apply in_map; exact Hin.
+  intros Hin H. apply map_eq_nil in H.
+  assert (Hf : In p (filter (fun q => fst q =? fst p) l)) by (apply filter_In; split; [exact Hin|apply N.eqb_refl]).
+  rewrite H in Hf. destruct Hf.
 Qed.
-
-Lemma ev1_of_in b p : NoDup (ids1_of b) -> In p (evs1 b) -> ev1_of (fst p) b = Some (snd p).
-Proof. intros Hnd Hin. unfold ev1_of. rewrite (find_nodup_in _ p Hnd Hin). reflexivity. Qed.
-Lemma ev2_of_in b p : NoDup (ids2_of b) -> In p (evs2 b) -> ev2_of (fst p) b = Some (snd p).
-Proof. intros Hnd Hin. unfold ev2_of. rewrite (find_nodup_in _ p Hnd Hin). reflexivity. Qed.
 
 (** * events of a block *)
 Lemma apply_events_rows b s :
-  Inv s -> NoDup (ids1_of b) -> NoDup (ids2_of b) ->
-  (forall id e, ev1_of id b = Some e ->
-     exists c r, find1 id (cs1 s) = Some c /\ row1_of (bheight b) e c = ROk r) ->
-  (forall id e, ev2_of id b = Some e ->
-     exists c r, find2 id (cs2 s) = Some c /\ row2_of (bidx b) e c = ROk r) ->
+  Inv s ->
+  (forall id, evl1_of id b <> [] -> find1 id (cs1 s) <> None) ->
+  (forall id, evl2_of id b <> [] -> find2 id (cs2 s) <> None) ->
+  (forall id c, find1 id (cs1 s) = Some c -> rows_ok1 (bheight b) (evl1_of id b) c) ->
+  (forall id c, find2 id (cs2 s) = Some c -> rows_ok2 (bidx b) (evl2_of id b) c) ->
   exists s', apply_contracts (bidx b) (changes_of false b) s = ROk s' /\ Inv s' /\
     (forall id, find1 id (cs1 s') = option_map (evrow1 (bheight b) b) (find1 id (cs1 s))) /\
     (forall id, find2 id (cs2 s') = option_map (evrow2 (bidx b) b) (find2 id (cs2 s))).
 Proof.
-  intros Hs Hn1 Hn2 P1 P2. rewrite apply_contracts_folds.
-  destruct (fw1_spec _ fst (fun p => row1_of (bheight b) (snd p)) (fun p => row1_of_ok _ _) (evs1 b) s Hs Hn1)
+  intros Hs K1 K2 P1 P2. rewrite apply_contracts_folds.
+  destruct (fs1_spec _ fst (fun p => row1_of (bheight b) (snd p)) (fun p => row1_of_ok _ _) (evs1 b) s Hs)
     as (s1 & E1 & Hs1 & Hc2 & Hf1).
-  { intros p Hp. apply (P1 (fst p) (snd p)). apply ev1_of_in; assumption. }
-  destruct (fw2_spec _ fst (fun p => row2_of (bidx b) (snd p)) (fun p => row2_of_ok _ _) (evs2 b) s1 Hs1 Hn2)
+  { intros p Hp. apply K1. apply in_evs_evl; exact Hp. }
+  { intros id c Ef. apply seq_rows1. apply (P1 id c Ef). }
+  destruct (fs2_spec _ fst (fun p => row2_of (bidx b) (snd p)) (fun p => row2_of_ok _ _) (evs2 b) s1 Hs1)
     as (s2 & E2 & Hs2 & Hc1 & Hf2).
-  { intros p Hp. rewrite Hc2. apply (P2 (fst p) (snd p)). apply ev2_of_in; assumption. }
+  { intros p Hp. rewrite Hc2. apply K2. apply in_evs_evl; exact Hp. }
+  { intros id c Ef. rewrite Hc2 in Ef. apply seq_rows2. apply (P2 id c Ef). }
   exists s2. split; [|split; [exact Hs2|split]].
   - unfold A1. unfold A1 in E1. rewrite E1. cbn [rbind]. exact E2.
-  - intros id. rewrite Hc1, Hf1. destruct (find1 id (cs1 s)); cbn; [rewrite updl1_evrow|]; reflexivity.
-  - intros id. rewrite Hf2, Hc2. destruct (find2 id (cs2 s)); cbn; [rewrite updl2_evrow|]; reflexivity.
+  - intros id. rewrite Hc1, Hf1. destruct (find1 id (cs1 s)) as [c|] eqn:Ef; cbn; [|reflexivity].
+    destruct (find1_in_ids _ _ _ Ef) as [_ Hid]. unfold evrow1, applyl1, evl1_of. rewrite seql1_evs, Hid. reflexivity.
+  - intros id. rewrite Hf2, Hc2. destruct (find2 id (cs2 s)) as [c|] eqn:Ef; cbn; [|reflexivity].
+    destruct (find2_in_ids _ _ _ Ef) as [_ Hid]. unfold evrow2, applyl2, evl2_of. rewrite seql2_evs, Hid. reflexivity.
 Qed.
 
 Lemma revert_block_rows b s :
-  Inv s -> NoDup (ids1_of b) -> NoDup (ids2_of b) ->
-  (forall id e, ev1_of id b = Some e ->
-     exists c r, find1 id (cs1 s) = Some c /\ rrow1_of e c = ROk r) ->
-  (forall id e, ev2_of id b = Some e ->
-     exists c r, find2 id (cs2 s) = Some c /\ rrow2_of e c = ROk r) ->
+  Inv s ->
+  (forall id, evl1_of id b <> [] -> find1 id (cs1 s) <> None) ->
+  (forall id, evl2_of id b <> [] -> find2 id (cs2 s) <> None) ->
+  (forall id c, find1 id (cs1 s) = Some c -> rrows_ok1 (evl1_of id b) c) ->
+  (forall id c, find2 id (cs2 s) = Some c -> rrows_ok2 (evl2_of id b) c) ->
   exists s', revert_block (rev_of b) s = ROk s' /\ Inv s' /\
     (forall id, find1 id (cs1 s') = option_map (revrow1 b) (find1 id (cs1 s))) /\
     (forall id, find2 id (cs2 s') = option_map (revrow2 b) (find2 id (cs2 s))).
 Proof.
-  intros Hs Hn1 Hn2 P1 P2. unfold revert_block, rev_of. cbn [snd]. rewrite revert_contracts_folds.
-  destruct (fw1_spec _ fst (fun p => rrow1_of (snd p)) (fun p => rrow1_of_ok _) (evs1 b) s Hs Hn1)
+  intros Hs K1 K2 P1 P2. unfold revert_block, rev_of. cbn [snd]. rewrite revert_contracts_folds.
+  destruct (fs1_spec _ fst (fun p => rrow1_of (snd p)) (fun p => rrow1_of_ok _) (evs1 b) s Hs)
     as (s1 & E1 & Hs1 & Hc2 & Hf1).
-  { intros p Hp. apply (P1 (fst p) (snd p)). apply ev1_of_in; assumption. }
-  destruct (fw2_spec _ fst (fun p => rrow2_of (snd p)) (fun p => rrow2_of_ok _) (evs2 b) s1 Hs1 Hn2)
+  { intros p Hp. apply K1. apply in_evs_evl; exact Hp. }
+  { intros id c Ef. apply seq_rrows1. apply (P1 id c Ef). }
+  destruct (fs2_spec _ fst (fun p => rrow2_of (snd p)) (fun p => rrow2_of_ok _) (evs2 b) s1 Hs1)
     as (s2 & E2 & Hs2 & Hc1 & Hf2).
-  { intros p Hp. rewrite Hc2. apply (P2 (fst p) (snd p)). apply ev2_of_in; assumption. }
+  { intros p Hp. rewrite Hc2. apply K2. apply in_evs_evl; exact Hp. }
+  { intros id c Ef. rewrite Hc2 in Ef. apply seq_rrows2. apply (P2 id c Ef). }
   exists s2. split; [|split; [exact Hs2|split]].
   - unfold R1. unfold R1 in E1. rewrite E1. cbn [rbind]. exact E2.
-  - intros id. rewrite Hc1, Hf1. destruct (find1 id (cs1 s)); cbn; [rewrite updl1_revrow|]; reflexivity.
-  - intros id. rewrite Hf2, Hc2. destruct (find2 id (cs2 s)); cbn; [rewrite updl2_revrow|]; reflexivity.
+  - intros id. rewrite Hc1, Hf1. destruct (find1 id (cs1 s)) as [c|] eqn:Ef; cbn; [|reflexivity].
+    destruct (find1_in_ids _ _ _ Ef) as [_ Hid]. unfold revrow1, revertl1, evl1_of. rewrite seql1_evs, Hid. reflexivity.
+  - intros id. rewrite Hf2, Hc2. destruct (find2 id (cs2 s)) as [c|] eqn:Ef; cbn; [|reflexivity].
+    destruct (find2_in_ids _ _ _ Ef) as [_ Hid]. unfold revrow2, revertl2, evl2_of. rewrite seql2_evs, Hid. reflexivity.
 Qed.
 
 (** * RejectContracts *)
@@ -183,11 +195,11 @@ Qed.
 
 (** * a whole applied block *)
 Lemma apply_block_rows buffer b s :
-  Inv s -> NoDup (ids1_of b) -> NoDup (ids2_of b) ->
-  (forall id e, ev1_of id b = Some e ->
-     exists c r, find1 id (cs1 s) = Some c /\ row1_of (bheight b) e c = ROk r) ->
-  (forall id e, ev2_of id b = Some e ->
-     exists c r, find2 id (cs2 s) = Some c /\ row2_of (bidx b) e c = ROk r) ->
+  Inv s ->
+  (forall id, evl1_of id b <> [] -> find1 id (cs1 s) <> None) ->
+  (forall id, evl2_of id b <> [] -> find2 id (cs2 s) <> None) ->
+  (forall id c, find1 id (cs1 s) = Some c -> rows_ok1 (bheight b) (evl1_of id b) c) ->
+  (forall id c, find2 id (cs2 s) = Some c -> rows_ok2 (bidx b) (evl2_of id b) c) ->
   (forall hm id c, rej_arg buffer (bheight b) = Some hm -> find1 id (cs1 s) = Some c ->
      q_rej1 hm (evrow1 (bheight b) b c) = true -> exists r, rej1 (evrow1 (bheight b) b c) = ROk r) ->
   (forall hm id c, rej_arg buffer (bheight b) = Some hm -> find2 id (cs2 s) = Some c ->
@@ -196,8 +208,8 @@ Lemma apply_block_rows buffer b s :
     (forall id, find1 id (cs1 s') = option_map (blkrow1 buffer b) (find1 id (cs1 s))) /\
     (forall id, find2 id (cs2 s') = option_map (blkrow2 buffer b) (find2 id (cs2 s))).
 Proof.
-  intros Hs Hn1 Hn2 P1 P2 Q1 Q2.
-  destruct (apply_events_rows b s Hs Hn1 Hn2 P1 P2) as (s1 & E1 & Hs1 & Hf1 & Hf2).
+  intros Hs K1 K2 P1 P2 Q1 Q2.
+  destruct (apply_events_rows b s Hs K1 K2 P1 P2) as (s1 & E1 & Hs1 & Hf1 & Hf2).
   unfold apply_block, app_of. rewrite E1. cbn [rbind]. unfold blkrow1, blkrow2.
   destruct (rej_arg buffer (bheight b)) as [hm|] eqn:Er.
   - destruct (reject_rows hm s1 Hs1) as (s2 & E2 & Hs2 & Hg1 & Hg2).
@@ -214,38 +226,18 @@ Proof.
 Qed.
 
 (** * the per-row functions on the chain columns *)
-Lemma evrow1_proj h b c :
-  (forall e, ev1_of (id1 c) b = Some e -> exists r, row1_of h e c = ROk r) ->
-  proj1 (evrow1 h b c) = match ev1_of (id1 c) b with Some e => spec_ev1 h e (proj1 c) | None => proj1 c end
-  /\ stat1 (evrow1 h b c) = stat1 c.
-Proof.
-  intros H. unfold evrow1. destruct (ev1_of (id1 c) b) as [e|]; [|auto].
-  destruct (H e eq_refl) as [r Hr]. rewrite Hr. cbn [fstok]. apply row1_proj; exact Hr.
-Qed.
-Lemma evrow2_proj i b c :
-  (forall e, ev2_of (id2 c) b = Some e -> exists r, row2_of i e c = ROk r) ->
-  proj2 (evrow2 i b c) = match ev2_of (id2 c) b with Some e => spec_ev2 i e (proj2 c) | None => proj2 c end
-  /\ stat2 (evrow2 i b c) = stat2 c.
-Proof.
-  intros H. unfold evrow2. destruct (ev2_of (id2 c) b) as [e|]; [|auto].
-  destruct (H e eq_refl) as [r Hr]. rewrite Hr. cbn [fstok]. apply row2_proj; exact Hr.
-Qed.
-Lemma revrow1_proj b c :
-  (forall e, ev1_of (id1 c) b = Some e -> exists r, rrow1_of e c = ROk r) ->
-  proj1 (revrow1 b c) = match ev1_of (id1 c) b with Some e => rspec_ev1 e (proj1 c) | None => proj1 c end
-  /\ stat1 (revrow1 b c) = stat1 c.
-Proof.
-  intros H. unfold revrow1. destruct (ev1_of (id1 c) b) as [e|]; [|auto].
-  destruct (H e eq_refl) as [r Hr]. rewrite Hr. cbn [fstok]. apply rrow1_proj; exact Hr.
-Qed.
-Lemma revrow2_proj b c :
-  (forall e, ev2_of (id2 c) b = Some e -> exists r, rrow2_of e c = ROk r) ->
-  proj2 (revrow2 b c) = match ev2_of (id2 c) b with Some e => rspec_ev2 e (proj2 c) | None => proj2 c end
-  /\ stat2 (revrow2 b c) = stat2 c.
-Proof.
-  intros H. unfold revrow2. destruct (ev2_of (id2 c) b) as [e|]; [|auto].
-  destruct (H e eq_refl) as [r Hr]. rewrite Hr. cbn [fstok]. apply rrow2_proj; exact Hr.
-Qed.
+Lemma evrow1_proj h b c : rows_ok1 h (evl1_of (id1 c) b) c ->
+  proj1 (evrow1 h b c) = spec_evs1 h (evl1_of (id1 c) b) (proj1 c) /\ stat1 (evrow1 h b c) = stat1 c.
+Proof. apply applyl1_proj. Qed.
+Lemma evrow2_proj i b c : rows_ok2 i (evl2_of (id2 c) b) c ->
+  proj2 (evrow2 i b c) = spec_evs2 i (evl2_of (id2 c) b) (proj2 c) /\ stat2 (evrow2 i b c) = stat2 c.
+Proof. apply applyl2_proj. Qed.
+Lemma revrow1_proj b c : rrows_ok1 (evl1_of (id1 c) b) c ->
+  proj1 (revrow1 b c) = rspec_evs1 (evl1_of (id1 c) b) (proj1 c) /\ stat1 (revrow1 b c) = stat1 c.
+Proof. apply revertl1_proj. Qed.
+Lemma revrow2_proj b c : rrows_ok2 (evl2_of (id2 c) b) c ->
+  proj2 (revrow2 b c) = rspec_evs2 (evl2_of (id2 c) b) (proj2 c) /\ stat2 (revrow2 b c) = stat2 c.
+Proof. apply revertl2_proj. Qed.
 
 Lemma rejrow1_proj rj c :
   (forall hm, rj = Some hm -> q_rej1 hm c = true -> exists r, rej1 c = ROk r) ->
@@ -272,7 +264,7 @@ Lemma stat2_id c c' : stat2 c' = stat2 c -> id2 c' = id2 c /\ neg2 c' = neg2 c.
 Proof. unfold stat2. intros [= -> -> _ _ _]. auto. Qed.
 
 Lemma blkrow1_proj buffer b c :
-  (forall e, ev1_of (id1 c) b = Some e -> exists r, row1_of (bheight b) e c = ROk r) ->
+  rows_ok1 (bheight b) (evl1_of (id1 c) b) c ->
   (forall hm, rej_arg buffer (bheight b) = Some hm -> q_rej1 hm (evrow1 (bheight b) b c) = true ->
      exists r, rej1 (evrow1 (bheight b) b c) = ROk r) ->
   proj1 (blkrow1 buffer b c) = spec_block1 buffer (neg1 c) (id1 c) b (proj1 c) /\
@@ -284,7 +276,7 @@ Proof.
   destruct (stat1_id _ _ B) as [_ Hng]. rewrite C, A, Hng, D, B. auto.
 Qed.
 Lemma blkrow2_proj buffer b c :
-  (forall e, ev2_of (id2 c) b = Some e -> exists r, row2_of (bidx b) e c = ROk r) ->
+  rows_ok2 (bidx b) (evl2_of (id2 c) b) c ->
   (forall hm, rej_arg buffer (bheight b) = Some hm -> q_rej2 hm (evrow2 (bidx b) b c) = true ->
      exists r, rej2 (evrow2 (bidx b) b c) = ROk r) ->
   proj2 (blkrow2 buffer b c) = spec_block2 buffer (neg2 c) (id2 c) b (proj2 c) /\
